@@ -37,6 +37,7 @@ use moka::future::Cache;
 pub use primitive_column_builder::*;
 pub use primitive_column_factory::*;
 use risinglight_proto::rowset::BlockIndex;
+use risinglight_proto::rowset::block_checksum::ChecksumType;
 pub use row_handler_column_iterator::*;
 pub use vector_column_builder::*;
 pub use vector_column_factory::*;
@@ -44,7 +45,7 @@ pub use vector_column_factory::*;
 use super::block::BLOCK_META_CHECKSUM_SIZE;
 use super::{BLOCK_META_SIZE, Block, BlockCacheKey, BlockMeta, ColumnIndex};
 use crate::array::Array;
-use crate::storage::secondary::verify_checksum;
+use crate::storage::secondary::verify_stored_checksum;
 use crate::storage::{StorageResult, TracedStorageError};
 
 /// Builds a column. [`ColumnBuilder`] will automatically chunk [`Array`] into
@@ -123,6 +124,8 @@ pub struct Column {
     file: ColumnReadableFile,
     block_cache: Cache<BlockCacheKey, Block>,
     base_block_key: BlockCacheKey,
+    /// Checksum type the storage is configured to write
+    checksum_type: ChecksumType,
 }
 
 impl Column {
@@ -131,12 +134,14 @@ impl Column {
         file: ColumnReadableFile,
         block_cache: Cache<BlockCacheKey, Block>,
         base_block_key: BlockCacheKey,
+        checksum_type: ChecksumType,
     ) -> Self {
         Self {
             index,
             file,
             block_cache,
             base_block_key,
+            checksum_type,
         }
     }
 
@@ -201,7 +206,8 @@ impl Column {
                     let mut header = &block[block.len() - BLOCK_META_SIZE..];
                     let mut loaded_header = BlockMeta::default();
                     loaded_header.decode(&mut header)?;
-                    verify_checksum(
+                    verify_stored_checksum(
+                        self.checksum_type,
                         loaded_header.checksum_type,
                         &block[..block.len() - BLOCK_META_CHECKSUM_SIZE],
                         loaded_header.checksum,
